@@ -1117,15 +1117,21 @@ var nestedLongCases = []nestedLong{
 }
 
 func nestedLongInput(head []byte) []byte {
-	sym := vrt.BytesTail("d", 11, 4)
-	for i := 0; i < 9; i++ {
+	pl, rest := 10, 1
+	if vrt.Thorough() {
+		// thorough: 9- and 10-byte varints, up to two bytes behind them
+		pl = 9 + vrt.Choice("prefix", 2)
+		rest = vrt.Choice("rest", 3)
+	}
+	sym := vrt.BytesTail("d", pl+rest, 4)
+	for i := 0; i < pl-1; i++ {
 		vrt.Assume(sym[i] >= 0x80)
 	}
-	vrt.Assume(sym[9] < 0x80)
-	data := make([]byte, 0, len(head)+11)
+	vrt.Assume(sym[pl-1] < 0x80)
+	data := make([]byte, 0, len(head)+len(sym))
 	for i, b := range head {
 		if b == 0xFF {
-			b = byte(len(head) - i - 1 + 11)
+			b = byte(len(head) - i - 1 + len(sym))
 		}
 		data = append(data, b)
 	}
